@@ -89,7 +89,14 @@ fn stmt(rng: &mut Rng, c: &mut u64, small: bool) -> String {
     *c += 1;
     let n = if small { rng.range(1, 3) } else { rng.range(2, 6) };
     let cc = *c;
-    match rng.below(40) {
+    match rng.below(48) {
+        // values held only in a local variable / on the operand stack after leaving their container
+        40 | 41 => format!("if {a}.len() > 0 {{ s0 = {a}.pop() }}"),
+        42 | 43 => "if nest.len() > 1 {\n    if nest[nest.len() - 1].len() > 0 { s1 = nest.pop().pop() }\n}".to_string(),
+        44 => format!("if {a}.len() > {k} {{\n    s1 = {a}[{k}]\n    {a}[{k}] = \"w\" .. {cc}\n}}"),
+        45 => "acc = acc .. s0 .. \"/\" .. s1".to_string(),
+        46 => format!("if nest.len() > 1 {{\n    let inner = nest.pop()\n    if inner.len() > 0 {{ s0 = inner.pop() }}\n    {b}.push(s0 .. \"~\")\n}}"),
+        47 => format!("if bx.more.len() > 0 {{ s1 = bx.more.pop() }}\nbx = Box(s1, fresh({cc}, 2))"),
         0 | 1 => format!("{a}.push(\"p\" .. {cc})"),
         2 | 3 => format!("if {b}.len() > 0 {{ {a}.push({b}.pop()) }}"),
         4 | 5 => format!("if {b}.len() > 0 and {a}.len() > {k} {{ {a}[{k}] = {b}.pop() }}"),
@@ -138,12 +145,13 @@ pub fn generate(rng: &mut Rng, small: bool) -> Workload {
     src.push_str(&format!("var a0 = fresh(0, {})\n", if small { 2 } else { 4 }));
     src.push_str(&format!("var a1 = fresh(1, {})\n", if small { 1 } else { 3 }));
     src.push_str("var a2: array<string> = []\n");
-    src.push_str("var nest: array<array<string>> = [fresh(7, 2)]\n");
+    src.push_str("var nest: array<array<string>> = [fresh(7, 2), fresh(6, 1), fresh(5, 2)]\n");
     src.push_str("var bx = Box(\"init\", fresh(8, 2))\n");
     src.push_str("var sh = Shape.Leaf(\"l\" .. 0)\n");
     src.push_str("var op: option<string> = option.none\n");
     src.push_str("var f = make_fn(\"p\", a0)\n");
     src.push_str("var acc = \"\"\n");
+    src.push_str("var s0 = \"\"\nvar s1 = \"\"\n");
     let mut c = 0u64;
     let n_top = if small { rng.range(3, 7) } else { rng.range(8, 30) };
     let mut n_stmts = 0;
@@ -165,6 +173,7 @@ pub fn generate(rng: &mut Rng, small: bool) -> Workload {
             n_stmts += 1;
         }
     }
+    src.push_str("obs(4, s0 .. \"|\" .. s1)\n");
     src.push_str("obs(1, acc .. \"|\" .. join(a0) .. \"|\" .. join(a1) .. \"|\" .. join(a2))\n");
     src.push_str("obs(2, bx.item .. \"|\" .. join(bx.more) .. \"|\" .. describe(sh) .. \"|\" .. opt_str(op) .. \"|\" .. f(0))\n");
     src.push_str("var total = 0\nfor row in nest {\n    total = total + row.len()\n}\nobs(3, \"\" .. nest.len() .. \":\" .. total)\n");
